@@ -609,36 +609,49 @@ func closeArgIsOutcome(c *core.Ctx) {
 			ok = true
 		}
 		if o := astx.ObjOf(info, arg); o != nil {
-			// a variable: every assignment to it is the implementation's result or the SetTimeout error
-			all, any := true, false
-			ast.Inspect(fd.Body, func(n ast.Node) bool {
-				as, isAs := n.(*ast.AssignStmt)
-				if !isAs {
+			// a variable: every assignment to it is the implementation's result, the SetTimeout error, or a
+			// copy of a variable of which that holds
+			var outcomeVar func(o types.Object, depth int) bool
+			outcomeVar = func(o types.Object, depth int) bool {
+				if depth > 3 {
+					return false
+				}
+				all, any := true, false
+				ast.Inspect(fd.Body, func(n ast.Node) bool {
+					as, isAs := n.(*ast.AssignStmt)
+					if !isAs {
+						return true
+					}
+					for i, l := range as.Lhs {
+						if astx.ObjOf(info, l) != o {
+							continue
+						}
+						any = true
+						var rhs ast.Expr
+						if len(as.Rhs) == len(as.Lhs) {
+							rhs = astx.Unparen(as.Rhs[i])
+						} else if len(as.Rhs) == 1 {
+							rhs = astx.Unparen(as.Rhs[0])
+						}
+						if ro := astx.ObjOf(info, rhs); ro != nil && ro != o {
+							if _, isVar := ro.(*types.Var); isVar && outcomeVar(ro, depth+1) {
+								continue
+							}
+						}
+						rc, isCall := rhs.(*ast.CallExpr)
+						if !isCall || !(astx.IsFieldNamed(info, rc.Fun, "implementation") || isIfaceMethodCall(info, rc, "protocolHandler", "SetTimeout")) {
+							all = false
+						}
+					}
 					return true
-				}
-				for i, l := range as.Lhs {
-					if astx.ObjOf(info, l) != o {
-						continue
-					}
-					any = true
-					var rhs ast.Expr
-					if len(as.Rhs) == len(as.Lhs) {
-						rhs = astx.Unparen(as.Rhs[i])
-					} else if len(as.Rhs) == 1 {
-						rhs = astx.Unparen(as.Rhs[0])
-					}
-					rc, isCall := rhs.(*ast.CallExpr)
-					if !isCall || !(astx.IsFieldNamed(info, rc.Fun, "implementation") || isIfaceMethodCall(info, rc, "protocolHandler", "SetTimeout")) {
-						all = false
-					}
-				}
-				return true
-			})
-			ok = any && all
+				})
+				return any && all
+			}
+			ok = outcomeVar(o, 0)
 		}
 		c.Check(ok, fmt.Sprintf("close-arg#%d", sites), call.Pos(), "Close receives %s: the implementation's result or the timeout-parse error, unmodified", what)
 	}
-	c.Floor("Close calls in ServeHTTP", sites, 2)
+	c.Floor("Close calls in ServeHTTP", sites, 1)
 }
 
 func trailersAfterDrain(c *core.Ctx) {
@@ -748,7 +761,17 @@ func writerMustPassThrough(c *core.Ctx) {
 			return isArr
 		})
 		copied := s.CountCalls(func(call *ast.CallExpr) bool {
-			return astx.IsPkgFunc(astx.Callee(info, call), "io", "Copy") && len(call.Args) == 2 && astx.IsFieldNamed(info, call.Args[1], "Data")
+			if !astx.IsPkgFunc(astx.Callee(info, call), "io", "Copy") || len(call.Args) != 2 {
+				return false
+			}
+			if astx.IsFieldNamed(info, call.Args[1], "Data") {
+				return true
+			}
+			// the payload buffer handed in as a parameter of its own
+			if pv, ok := astx.ObjOf(info, call.Args[1]).(*types.Var); ok && paramIndex(funcOf(info, fd), pv) >= 0 && astx.TypeIs(derefType(pv.Type()), "bytes", "Buffer") {
+				return true
+			}
+			return false
 		})
 		if wrotePrefix != 1 || copied != 1 {
 			probs = append(probs, fmt.Sprintf("the success exit at %s wrote the prefix array %d time(s) and copied the payload buffer %d time(s)", p.Pos(ret.Pos()), wrotePrefix, copied))
